@@ -59,6 +59,7 @@ def programs(t, subset='all'):
         scw.append('S(i32, 2, 16, 8)')
         scw.append('S(i64, -3, 16, 8)')
         scw.append('S(i32, -4, 16, 8)')
+        scw.append('S(i64, -4, 16, 8)')
         scw.append('S(u32, -3, 16, 8)')
     else:
         # the unsanitised / ASan units also see a few 64-bit reps (what a release build prints at the type's extremes)
